@@ -1,6 +1,7 @@
 (** C12: prune slot lookups are checked, commits are deleted last. *)
 From Coq Require Import List NArith String Bool.
 From W.gen Require Import Extracted TieLib.
+From W.model Require Import Prune.
 Import ListNotations.
 Open Scope string_scope.
 Example tie_prune_guards : nonempty prune_search_guards && all_eq "checked" prune_search_guards = true /\ List.length prune_search_guards = 4.
@@ -12,4 +13,7 @@ Example tie_prune_order :
   && before "objects.DeleteBlockIndex" "objects.DeleteCommit" skel_prune = true.
 Proof. vm_compute; reflexivity. Qed.
 Example tie_prune_commit_order : prune_commit_order = "childrenFirst".
+Proof. vm_compute; reflexivity. Qed.
+(* the delete skeleton the model and proofs of C12 are written for *)
+Example tie_prune_skel : prune_skel_ok prune_delete_skel = true.
 Proof. vm_compute; reflexivity. Qed.
